@@ -368,6 +368,43 @@ fn check_loop(n: u32, empty_body: bool) -> Option<(String, String)> {
     None
 }
 
+/// A loop as the body of a scope whose state initialiser leaves an iteration counter of 3 behind: the scope initialises
+/// its state first and its body afterwards, so the loop starts counting at zero and makes exactly n passes.
+fn check_loop_in_initialised_scope(n: u32) -> Option<(String, String)> {
+    fn leave_counter(st: &mut State<TagP>) -> ExecResult<()> {
+        st.insert(Iterations(3));
+        Ok(())
+    }
+    let log = Arc::new(Mutex::new(LoopLog::default()));
+    let cond: Box<dyn Condition<TagP>> = Box::new(WrapCond { inner: LessThanN::iterations(n), log: log.clone() });
+    let body: Box<dyn Component<TagP>> = Box::new(CountBody { log: log.clone() });
+    let inner = Configuration::<TagP>::builder().while_(cond, |b| b.do_(body)).build_component();
+    let config = Configuration::<TagP>::builder().do_(mahf::components::Scope::new_with(leave_counter, inner, |_, _| Ok(()))).build();
+    let r = catch(|| {
+        config.optimize_with(&TagP, |st| {
+            st.insert(crate::engine::tape::scripted_random(0));
+            st.insert(crate::subject::templates::horizon_observer::<TagP>(20_000));
+            Ok(())
+        })
+    });
+    let ctx = |w: String| format!("scope with state initialiser {{ insert Iterations(3) }} around while LessThanN::iterations({}) {{ body }}: {}", n, w);
+    let head = "C10 loop in-scope-with-state-initialiser".to_string();
+    match r {
+        Err(p) if p.contains("verif horizon") => return Some((format!("{} does-not-terminate", head), ctx(p))),
+        Err(p) => return Some((format!("{} panic", head), ctx(format!("panicked: {}", p)))),
+        Ok(Err(e)) => return Some((format!("{} error", head), ctx(format!("returned Err: {:#}", e)))),
+        Ok(Ok(_)) => {}
+    };
+    let g = log.lock().unwrap();
+    if g.passes != n || g.tests != n + 1 {
+        return Some((format!("{} pass-count", head), ctx(format!("{} passes and {} condition tests; expected exactly {} passes and {} tests", g.passes, g.tests, n, n + 1))));
+    }
+    if g.iterations_seen != (0..=n).collect::<Vec<_>>() {
+        return Some((format!("{} counter-sequence", head), ctx(format!("iteration counter seen at the tests: {:?}", g.iterations_seen))));
+    }
+    None
+}
+
 /// `while iterations < n { scope { while iterations < m { inner } }; outer }`: the inner loop owns a
 /// counter of its own in its scope, so the outer loop makes exactly n passes and the inner one m per pass
 fn check_nested_loop(n: u32, m: u32, scoped: bool) -> Option<(String, String)> {
@@ -747,7 +784,7 @@ fn check_random_chance(p: f64, seed: u64) -> Vec<(String, String, Value)> {
 
 pub fn run(rep: &mut Report) {
     let thorough = rep.tier == Tier::Thorough;
-    rep.alpha("LessThanN over iterations / evaluations / an f64 lens: n in 0..6 x value in 0..8, n in 7..220 (thorough: 2000) x value in {n-1, n, n+1}, loops of 49, 98, 103, 107, 161 passes, and over the f64 lens with n in {-2,-1.5,..,2} x value in {-3,-2.5,..,3}; loops `while LessThanN::iterations(n)` with counting body and wrapped condition, n in 0..5; two such loops, the second nested in the first through a scope or following it in a scope of its own, n, m in 0..4");
+    rep.alpha("LessThanN over iterations / evaluations / an f64 lens: n in 0..6 x value in 0..8, n in 7..220 (thorough: 2000) x value in {n-1, n, n+1}, loops of 49, 98, 103, 107, 161 passes, counts around 2^8, 2^16, 2^24, 2^31 and 2^32 for LessThanN and EveryN, and over the f64 lens with n in {-2,-1.5,..,2} x value in {-3,-2.5,..,3}; loops `while LessThanN::iterations(n)` with counting body and wrapped condition, n in 0..5; two such loops, the second nested in the first through a scope or following it in a scope of its own, n, m in 0..4; such a loop as the body of a scope whose state initialiser leaves an iteration counter behind, n in 0..5");
     rep.alpha("EveryN: n in 1..6 x value in 0..13; OptimumReached: epsilon in {0,1e-9,1/2} x best in {none, opt, opt+eps, next double above opt+eps, opt+1, +inf}, negative epsilon at construction");
     rep.alpha("ChangeOf: all value histories of length <= 5 (quick) / 6 (thorough) over {0,1,2} with PartialEqChecker and over {0..4} with DeltaEqChecker(0|1|2)");
     rep.alpha("RandomChance(p), p in {0,1/4,1/2,3/4,1}: the decisive generator word swept over 256 evenly spaced values, 0 and 2^64-1; the share of firing words must be p (+- 2/256)");
@@ -794,6 +831,29 @@ pub fn run(rep: &mut Report) {
             }
         }
     }
+    // counts at the edges of narrower number types (a counter converted through f32, i32 or u16 on the way)
+    for kind in 0..2u8 {
+        for n in [255u32, 256, 257, 65_535, 65_536, 65_537, 16_777_215, 16_777_216, 16_777_217, 2_147_483_647, 2_147_483_648, 2_147_483_649, u32::MAX - 1, u32::MAX] {
+            for v in [n.wrapping_sub(1), n, n.wrapping_add(1), 0, u32::MAX] {
+                p.transitions += 1;
+                p.traces += 1;
+                p.states += 1;
+                if let Some((s, d)) = check_less_than(kind, n, v) {
+                    p.violate(s, d, json!({"kind": "less", "lens": kind, "n": n, "v": v}));
+                }
+            }
+        }
+    }
+    for n in [1u32, 2, 3, 7, 255, 256, 65_536, 16_777_217] {
+        for v in [0u32, n - 1, n, n + 1, 2 * n, 16_777_216, 16_777_217, 2_147_483_648, u32::MAX - (u32::MAX % n), u32::MAX] {
+            p.transitions += 1;
+            p.traces += 1;
+            p.states += 1;
+            if let Some((s, d)) = check_every_n(n, v) {
+                p.violate(s, d, json!({"kind": "every", "n": n, "v": v}));
+            }
+        }
+    }
     for n in [49u32, 98, 103, 107, 161] {
         p.transitions += (2 * n + 1) as u64;
         p.traces += 1;
@@ -811,6 +871,14 @@ pub fn run(rep: &mut Report) {
             if let Some((s, d)) = check_less_than_signed(n2, v2) {
                 p.violate(s, d, json!({"kind": "less-signed", "n": n2, "v": v2}));
             }
+        }
+    }
+    for n in 0..=5u32 {
+        p.transitions += (2 * n + 1) as u64;
+        p.traces += 1;
+        p.states += 1;
+        if let Some((s, d)) = check_loop_in_initialised_scope(n) {
+            p.violate(s, d, json!({"kind": "loop-in-initialised-scope", "n": n}));
         }
     }
     for n in 0..=4u32 {
@@ -988,6 +1056,7 @@ pub fn replay(case: &Value) -> Result<Vec<(String, String)>, String> {
     Ok(match case["kind"].as_str().unwrap_or("") {
         "less" => check_less_than(u("lens") as u8, u("n") as u32, u("v") as u32).into_iter().collect(),
         "loop" => check_loop(u("n") as u32, case["empty"].as_bool().unwrap_or(false)).into_iter().collect(),
+        "loop-in-initialised-scope" => check_loop_in_initialised_scope(u("n") as u32).into_iter().collect(),
         "nested-loop" => check_nested_loop(u("n") as u32, u("m") as u32, case["scoped"].as_bool().unwrap_or(true)).into_iter().collect(),
         "less-signed" => check_less_than_signed(case["n"].as_i64().unwrap_or(0) as i32, case["v"].as_i64().unwrap_or(0) as i32).into_iter().collect(),
         "every" => check_every_n(u("n") as u32, u("v") as u32).into_iter().collect(),
